@@ -3,6 +3,8 @@ package main
 import (
 	"bytes"
 	"fmt"
+	"os"
+	"os/exec"
 	"regexp"
 	"sort"
 	"strings"
@@ -79,9 +81,54 @@ func seqOf(lits [][]byte, complete bool) *literal.Seq {
 	return literal.NewSeq(ls...)
 }
 
+// checkC16 runs the comparison in-process (vector kernels enabled) and once more in a worker process started with the CPU
+// vector extensions masked (GODEBUG=cpu.avx2=off,cpu.ssse3=off,…), which selects the scalar candidate finders of Teddy and
+// the generic memchr/memmem paths.
 func checkC16(r *Report, known []Finding) {
+	c16Body(r, known)
+	self, _ := os.Executable()
+	cmd := exec.Command(self, "c16worker", fmt.Sprint(r.Seed), r.Tier)
+	cmd.Env = append(os.Environ(), "GODEBUG=cpu.avx2=off,cpu.ssse3=off,cpu.sse41=off,cpu.avx=off")
+	out, err := cmd.CombinedOutput()
+	tm := r.Tie("the same comparison with CPU vector extensions masked (scalar fallbacks)")
+	done := false
+	for _, l := range strings.Split(string(out), "\n") {
+		switch {
+		case strings.HasPrefix(l, "MISMATCH "):
+			tm.Disagreements++
+			r.Violate("with vector extensions masked: "+l[len("MISMATCH "):], map[string]any{"mode": "GODEBUG=cpu.avx2=off,cpu.ssse3=off,cpu.sse41=off,cpu.avx=off", "what": l}, false)
+		case strings.HasPrefix(l, "DONE "):
+			fmt.Sscanf(l, "DONE %d", &tm.Cases)
+			done = true
+		}
+	}
+	if err != nil || !done {
+		tail := string(out)
+		if len(tail) > 2000 {
+			tail = tail[len(tail)-2000:]
+		}
+		r.Violate(fmt.Sprintf("masked prefilter worker died: %v", err), map[string]any{"output_tail": tail}, false)
+	}
+}
+
+// c16Worker: the body of the check in a process of its own; prints MISMATCH lines for violations that are not known findings.
+func c16Worker(seed uint64, tier string) int {
+	r := NewReport("C16", tier, seed)
+	c16Body(r, loadKnown())
+	for _, v := range r.Violations {
+		fmt.Printf("MISMATCH %s\n", strings.ReplaceAll(v.What, "\n", " "))
+	}
+	n := 0
+	for _, t := range r.Ties {
+		n += t.Cases
+	}
+	fmt.Printf("DONE %d\n", n)
+	return 0
+}
+
+func c16Body(r *Report, known []Finding) {
 	r.Rule = "literal sets selecting every prefilter implementation (memchr, memmem, slim Teddy, fat Teddy, Aho-Corasick, wrappers, tracker, digit) x systematic haystacks: each literal planted at " +
-		"every offset of a window crossing 16/32/64-byte blocks, near-miss literals (one byte off, shared fingerprint), all start offsets near the plant, vector extensions on (masked run in thorough); " +
+		"every offset of a window crossing 16/32/64-byte blocks, near-miss literals (one byte off, shared fingerprint), all start offsets near the plant, vector extensions on, and the whole comparison again in a worker process with them masked; " +
 		"Find compared with the naive definition and slim Teddy also with the Lean model; complete prefilters compared with regexp on the source alternation; " +
 		"non-trivial = a literal occurs at or after start; distinct by (set, haystack, start)"
 	root := NewRNG(r.Seed)
